@@ -1637,7 +1637,17 @@ void process_header_to_links(mmd_engine * e, token * h) {
 		label = label_from_token(e->dstr->str, manual);
 		h = manual;
 	} else {
-		label = label_from_token(e->dstr->str, h);
+		// Don't include the underline of a Setext header in the label
+		// ('-' is a valid label character, so '-----' would become part of it)
+		token * text = token_new(h->type, h->start, h->len);
+
+		if (h->child && h->child->tail &&
+				((h->child->tail->type == MARKER_SETEXT_1) || (h->child->tail->type == MARKER_SETEXT_2))) {
+			text->len = h->child->tail->start - h->start;
+		}
+
+		label = label_from_token(e->dstr->str, text);
+		token_free(text);
 	}
 
 	DString * url = d_string_new("#");
@@ -1645,6 +1655,12 @@ void process_header_to_links(mmd_engine * e, token * h) {
 	d_string_append(url, label);
 
 	link * l = link_new(e->dstr->str, h, url->str, NULL, NULL, LINK_AUTO);
+
+	if (l && !manual) {
+		// Match references against the same label that becomes the header's id
+		free(l->label_text);
+		l->label_text = my_strdup(label);
+	}
 
 	// Store link for later use
 	stack_push(e->link_stack, l);
